@@ -974,7 +974,7 @@ def process_commandline(out: OutputBuffer, args: List[str]) -> 'AuditConf':  # p
             sys.exit(exitcodes.UNKNOWN_ERROR)
 
         # Strip out whitespace from each line in target file, and skip empty lines.
-        aconf.target_list = [target.strip() for target in aconf.target_list if target not in ("", "\n")]
+        aconf.target_list = [target.strip() for target in aconf.target_list if target.strip() != ""]
 
     # If a policy file was provided, validate it.
     if (aconf.policy_file is not None) and (aconf.make_policy is False):
